@@ -530,6 +530,24 @@ theorem pointAlong_hdist (ph vh : Fin (n + 1) → ℝ) (hp : mink ph ph = -1) (h
   unfold C01.hdist coshDistClamped
   rw [hd, max_eq_right (Real.one_le_cosh t), ← Real.cosh_abs, Real.arcosh_cosh (abs_nonneg t)]
 
+/-- **following the unit tangent towards `q` for distance `d(p,q)` arrives at `q`** (over ℝ, with
+the library's own distance and `hyp_to_affine_dist`): the computed vector is a non-zero
+multiple of the stored representative of `q` -/
+theorem towards_reaches (p q : Fin (n + 1) → ℝ) (hp : mink p p < 0) (hq : mink q q < 0)
+    (hne : 1 < coshDist Real.sqrt p q) :
+    let u := unitTangentTowards Real.sqrt p q
+    ∃ c : ℝ, c ≠ 0 ∧
+      pointAlong (tvOriginToRow0 Real.sqrt p u) (tvOriginToRow1 Real.sqrt p u)
+        (hypToAffine (Real.exp (2 * C01.hdist p q))) = fun i => c * q i := by
+  intro u
+  have hch : Real.cosh (C01.hdist p q) = coshDist Real.sqrt p q := C01.cosh_hdist p q hp hq
+  have hpos : 0 < C01.hdist p q := by
+    unfold C01.hdist; rw [C01.clamp_noop p q hp hq]; exact Real.arcosh_pos hne
+  have hsh : 0 < Real.sinh (C01.hdist p q) := Real.sinh_pos_iff.2 hpos
+  have := pointAlong_towards C01.isSqrt_real p q hp hq (Real.sinh (C01.hdist p q)) hsh
+    (by rw [← hch, Real.cosh_sq]; ring)
+  rw [hyp_to_affine_dist_eq_tanh, Real.tanh_eq_sinh_div_cosh, hch]; exact this
+
 /-- `regular_polygon_radius(n, a)` over ℝ -/
 noncomputable def polyRadius (k : ℕ) (a : ℝ) : ℝ :=
   Real.arsinh (Real.sqrt ((Real.cos (a / 2) ^ 2 - Real.sin (π / k) ^ 2)
